@@ -91,7 +91,11 @@ func run(rt *rapid.T) {
 	var kinds []string
 	for i := gen.Uniform(rt, 0, 6, "nchanges"); i > 0; i-- {
 		es := wmkit.Entries(m.Model)
-		switch gen.Pick(rt, []string{"new-key", "change-value", "same-value", "del-readd", "delete"}, "ckind") {
+		switch gen.Pick(rt, []string{"new-key", "change-value", "earlier-value", "same-value", "del-readd", "delete"}, "ckind") {
+		case "earlier-value":
+			if m.Revert(rt, "crevert") {
+				kinds = append(kinds, "new-or-changed")
+			}
 		case "new-key":
 			ki := gen.Uniform(rt, 0, len(pool)-1, "cki")
 			m.Update(pool[ki], wmkit.GenValue(rt, ki, &counter, unique))
